@@ -389,13 +389,17 @@ impl<N, E, S: BuildHasher, Ty: EdgeType, Null: Nullable<Wrapped = E>, Ix: IndexT
         for id in self.nodes.iter_ids() {
             let position = self.to_edge_position(a, NodeIndex::new(id));
             if let Some(pos) = position {
-                self.node_adjacencies[pos] = Default::default();
+                if !mem::take(&mut self.node_adjacencies[pos]).is_null() {
+                    self.nb_edges -= 1;
+                }
             }
 
             if Ty::is_directed() {
                 let position = self.to_edge_position(NodeIndex::new(id), a);
                 if let Some(pos) = position {
-                    self.node_adjacencies[pos] = Default::default();
+                    if !mem::take(&mut self.node_adjacencies[pos]).is_null() {
+                        self.nb_edges -= 1;
+                    }
                 }
             }
         }
